@@ -81,6 +81,10 @@ class Scenario:
         cm = patch.shim_on(include_io=self.include_io, builtins_for=self.builtins_for, extra=extra)
         cm.__enter__()
         cx.on_exit(lambda: cm.__exit__(None, None, None))
+        if getattr(cx, "want_profile", False) and cx.profiler is None:
+            cx.profiler = core._Profiler()
+            cx.profiler.start()
+            cx.on_exit(cx.profiler.stop)
         try:
             yield npshim
         finally:
